@@ -134,6 +134,8 @@ def pick_focus(spec):
 
 def choose_focus(spec):
     st = spec['strategy']
+    if st.get('kind') == 'focus' and st.get('fn') and st.get('instr') and not spec.get('instr_fn'):
+        spec['instr_fn'] = st['fn']
     if st.get('kind') != 'focus' or st.get('fn'):
         return
     fns = pick_focus(spec)
@@ -146,6 +148,8 @@ def choose_focus(spec):
         st['p'] = 0.01
         return
     st['fn'] = pool_[(pick // 5) % len(pool_)]
+    if st.get('instr'):
+        spec['instr_fn'] = st['fn']
 
 
 def run_sim(spec):
@@ -244,7 +248,7 @@ def run_sim(spec):
         'finishes': sim.finishes, 'first': sim.first,
         'fired': [[c.cid] + f for c in clients for f in c.fired], 'gc_fired': len(sim.gc_fired), 'gcs_at': sim.gc_fired,
         'op_evs': [c.op_evs for c in clients], 'sig': sig, 'swallowed': swallowed,
-        'overlap': sim.overlap_funcs, 'wall': time.time() - t0, 'focus': spec['strategy'].get('fn'), 'focus_hits': sim.focus_hits, 'lock_yields': sim.lock_yields,
+        'overlap': sim.overlap_funcs, 'wall': time.time() - t0, 'focus': spec['strategy'].get('fn'), 'focus_hits': sim.focus_hits, 'instr_fn': spec.get('instr_fn'), 'lock_yields': sim.lock_yields,
     }
 
 
